@@ -22,6 +22,7 @@ fn run_labels(case: &TrainCase, run: &TrainRun, cx: &mut Ctx) {
     cx.label_if(case.train.hybrids > 0, "consist_with_hybrid_locomotive");
     cx.label_if(case.init_offset_extra > 0.0, "starts_further_along_the_path");
     cx.label_if(case.and_parts, "built_through_and_parts_constructor");
+    cx.label_if(case.hand_assembled, "assembled_by_hand_on_the_extended_path");
     cx.label_if(case.train.length_override.is_some(), "length_override");
     cx.label_if(case.train.mass_override.is_some(), "mass_override");
     cx.label_if(case.train.cars.len() > 1, "car_mix");
@@ -74,7 +75,12 @@ fn train_assumptions() -> Vec<String> {
 pub struct C07;
 impl C07 {
     fn gen(g: &mut Gen, tier: Tier) -> TrainCase {
-        mixed_case(g, tier, 0.3)
+        let mut c = mixed_case(g, tier, 0.3);
+        // a fifth of the set-speed cases are assembled by hand on the extended path
+        if c.mode == 0 && g.bool(0.2) {
+            c.hand_assembled = true;
+        }
+        c
     }
     fn check(case: &TrainCase, cx: &mut Ctx) {
         let Some(run) = prep(case, cx) else { return };
